@@ -8,7 +8,7 @@ from ..core import Ctx, load_corpus, rs
 from ..lean import run_driver
 from .. import problems as P
 
-TRANSFORMS = ["permute", "split_serial", "split_parallel", "rename_zones", "reorder_zones", "translate", "scale", "mirror"]
+TRANSFORMS = ["permute", "split_serial", "split_parallel", "rename_zones", "reorder_zones", "translate", "scale", "mirror", "mirror"]
 
 
 # --------------------------------------------------------------------------- transformations
@@ -201,7 +201,12 @@ def compare(pr, kind, info, a, b, ga, gb):
                     if un in ("HU", "CU"):
                         continue
                     if abs(rb[other].get(un, 0.0) - v) > eps:
-                        fails.append(("utility_duties", f"{n}: {side} utility {un} = {v} should become {other} duty, got {rb[other].get(un)}")); break
+                        # known defect (C03-cold-sufficiency-sign): the cold side decides with the wrong sign of dt_cont whether
+                        # a default utility is needed, so a default appears on one side of the mirror only
+                        asym = (("HU" in ra["hot"]) != ("CU" in rb["cold"])) or (("CU" in ra["cold"]) != ("HU" in rb["hot"]))
+                        fails.append(("utility_duties", f"{n}: {side} utility {un} = {v} should become {other} duty, got {rb[other].get(un)}"
+                                      + ("; default utility present on one side of the mirror only" if asym else ""),
+                                      "cold_sufficiency_sign" if asym else None)); break
     # graph data: same curves (as point lists) for transformations that do not touch the curves' break points
     if kind in ("permute", "reorder_zones", "rename_zones", "translate", "scale", "split_serial", "split_parallel"):
         for (key, typ), segs in ga.items():
@@ -244,6 +249,20 @@ def gen_base(rng):
     labels = rng.choice([["A"], ["A", "B"], ["A", "B", "C"], ["A/X", "A/Y", "B"]])
     pr = P.gen_problem(rng, labels=labels, with_tree=(rng.random() < 0.25), name_clash_p=0.0,
                        util_kind=rng.choice(["none", "none", "outside", "ladder", "mixed"]))
+    if rng.random() < 0.3:
+        # ladders whose intermediate levels glide over 20-60 K with their own contribution (district heating water,
+        # hot oil), each with a colder / hotter level behind it
+        temps = [s[k] for s in pr["streams"] for k in ("t_supply", "t_target")]
+        lo, hi = min(temps), max(temps)
+        dt = rng.choice([5.0, 10.0, 2.5])
+
+        def u(name, typ, ts, tt):
+            return {"name": name, "type": typ, "t_supply": float(ts), "t_target": float(tt), "heat_flow": 0.0, "dt_cont": dt, "htc": 1.0, "price": 10.0}
+        g1, g2 = rng.choice([20, 40, 60]), rng.choice([20, 40, 60])
+        c0 = rng.randrange(int(lo), int((lo + hi) / 2) + 1)
+        h0 = rng.randrange(int((lo + hi) / 2), int(hi) + 1)
+        pr["utilities"] = [u("HPS", "Hot", hi + 60, hi + 60), u("OIL", "Hot", h0 + g2, h0),
+                           u("DH", "Cold", c0, c0 + g1), u("CW", "Cold", lo - 40, lo - 35)]
     return pr
 
 
@@ -280,8 +299,9 @@ def run(ctx: Ctx):
             continue
         ctx.count({"kind": "metamorphic", "transform": c["transform"], "n": len(c["problem"]["streams"]), "n_util": len(c["problem"]["utilities"])},
                   True, [c["transform"], "util" if c["problem"]["utilities"] else "no_util", "tree" if c["problem"].get("zone_tree") else "no_tree"])
-        for clause, detail in fails:
-            ctx.oracle_fail(c, f"[{c['transform']}] {detail}", cause_of(c, clause, detail), clause)
+        for f in fails:
+            clause, detail = f[0], f[1]
+            ctx.oracle_fail(c, f"[{c['transform']}] {detail}", f[2] if len(f) > 2 else None, clause)
 
 
 def model_tie(ctx, cases):
